@@ -98,6 +98,22 @@ CHECKS = {
         'verbatim strings is a recorded known finding.',
         'CPython int()/float()/unicodedata are the ground truth for numbers '
         'and \\N names', 'DESIGN.md section 2, C16'),
+    'C13': (
+        'Hypothesis-generated single calls, pipelines and algebraic laws for '
+        'every collections/queries function against straight-line reference '
+        'models on materialised data',
+        'Generated-input search: ~150 model entries cover every registered '
+        'function of the collections and queries modules (plus unpack/with): '
+        'tuples, mutable lists and one-shot iterators of small integers with '
+        'ties, dictionaries with nested values, sets; lambda families; '
+        'integer arguments in [-len-2, len+2]; pipelines of 2-4 operators '
+        'with an optional reducer; laws (take+skip partition, reverse twice, '
+        'concat associativity, indexOf vs in, sort is a sorted permutation). '
+        'Oracle: models/collmodel.py (ordering = explicit stable insertion '
+        'sort, grouping = first-occurrence partition, ...). Sampled.',
+        'characterisation entries pin what the docstrings leave open; '
+        'negative positions are not judged',
+        'DESIGN.md section 2, C13'),
     'C15': (
         'exhaustive all-pairs enumeration of a boundary corpus under every '
         'scalar operator against a reference model, law checks through yaql, '
